@@ -106,9 +106,12 @@ impl WorldC {
                 format!("TotalWeight {} != sum of ListMembers {}", obs.total, sum),
             );
         }
-        for w in obs.members.windows(2) {
-            if w[0].0 >= w[1].0 {
-                self.viol(out, "C09", "member-listing-not-strictly-sorted", json!({}), format!("{} then {}", w[0].0, w[1].0));
+        {
+            let mut seen = std::collections::BTreeSet::new();
+            for (a, _) in &obs.members {
+                if !seen.insert(a.clone()) {
+                    self.viol(out, "C09", "member-listed-twice", json!({}), a.clone());
+                }
             }
         }
         // C09: raw keys published by the cw4 spec
@@ -493,12 +496,19 @@ impl WorldC {
                         let a = v["add_hook"]["addr"].as_str().unwrap_or("").to_string();
                         let mut want = pre.hooks.clone();
                         want.push(a);
-                        post.hooks == want
+                        let mut got = post.hooks.clone();
+                        want.sort();
+                        got.sort();
+                        got == want
                     }
                     "remove_hook" => {
                         let a = v["remove_hook"]["addr"].as_str().unwrap_or("").to_string();
-                        let want: Vec<String> = pre.hooks.iter().filter(|h| **h != a).cloned().collect();
-                        post.hooks == want && want.len() + 1 == pre.hooks.len()
+                        let mut want: Vec<String> = pre.hooks.iter().filter(|h| **h != a).cloned().collect();
+                        let mut got = post.hooks.clone();
+                        let removed_one = want.len() + 1 == pre.hooks.len();
+                        want.sort();
+                        got.sort();
+                        got == want && removed_one
                     }
                     _ => false,
                 };
